@@ -221,7 +221,10 @@ theorem geometric_scale (crit : Crit Rex) (conf : Confidence Rex) (xs : List ℝ
       (Geometric.ci crit conf (xs.map inj : List Rex)).map (Interval.map (smul a)) :=
   Geometric.ci_scale_rex crit conf xs hpos a ha
 
-/-- and likewise of the harmonic interval (the reciprocals scale by `a⁻¹`) -/
+/-- and likewise of the harmonic interval (the reciprocals scale by `a⁻¹`). No hypothesis on the
+    sign of the reciprocal-space bounds: scaling by `a⁻¹ > 0` does not change the branch taken by
+    `Harmonic.recipBound`, `1/(a⁻¹·r) = a·(1/r)` on the positive branch, and on the other branch
+    both sides carry `posInf` (at `Rex` the stand-in `⟨0⟩ = a·⟨0⟩`) -/
 theorem harmonic_scale (crit : Crit Rex) (conf : Confidence Rex) (xs : List ℝ)
     (hpos : ∀ x ∈ xs, 0 < x) (a : ℝ) (ha : 0 < a) :
     Harmonic.ci crit conf ((xs.map (fun x => a * x)).map inj) =
